@@ -146,5 +146,13 @@ func (u *UDPv4) createRawUDPBuffer(sourceIP net.IP, sourcePort uint16, destIP ne
 	}
 
 	packet := u.buffer.Bytes()
+	// RFC 768 / RFC 8200: a computed checksum of zero must be transmitted as all ones
+	// (zero means "no checksum", which receivers discard over IPv6)
+	if udpLayer.Checksum == 0 {
+		const udpHeaderSize = 8
+		csumOffset := len(packet) - len(payload) - udpHeaderSize + 6
+		packet[csumOffset], packet[csumOffset+1] = 0xff, 0xff
+		udpLayer.Checksum = 0xffff
+	}
 	return id, packet, udpLayer.Checksum, nil
 }
